@@ -18,6 +18,9 @@ str]`) comes back as a string. `C26_full` is the full statement, `C26_counterexa
 two concrete messages, `C26_partial` proves it for all values without such floats/keys, and
 `C26_full_for_plain_messages` proves it without any value hypothesis for every message class whose
 schema contains neither a float nor a non-string-keyed dict.
+A field whose *type* the model does not cover is translated to `Ty.opaqueTy`: no value is `wellTyped` for
+it, so the theorems do not speak about messages of a class that contains such a field (the check lists these
+classes and exercises them against the real code only).
 -/
 namespace OPM.C26
 open OPM.Proto OPM.Gen.Schemas
@@ -161,6 +164,16 @@ example : SetOrder List.reverse := fun _ _ => List.mem_reverse
 /-- a set comes back as the same set although it was iterated in another order -/
 example : validate .lax .setStr (toJ List.reverse (.set ["a", "b", "c"])) = .ok (.set ["a", "b", "c"]) := by
   decide +kernel
+
+/-- tuples (fixed and variadic) come back as tuples, element types intact -/
+example : validate .lax (.tuple (.tcons .int (.tcons (.union .float .none) .tnil)))
+      (toJ id (.tup (.lcons (.int 3) (.lcons (.flt (.fin 5 1)) .lnil)))) =
+    .ok (.tup (.lcons (.int 3) (.lcons (.flt (.fin 5 1)) .lnil))) ∧
+    validate .lax (.tupleVar .str) (toJ id (.tup (.lcons (.str "a") .lnil))) = .ok (.tup (.lcons (.str "a") .lnil)) ∧
+    rt (.tuple (.tcons .int (.tcons (.union .float .none) .tnil))) = true := by decide +kernel
+
+/-- a field type outside the model has no well-typed value: the theorems are silent about such messages -/
+example : ∀ v, wellTyped (.opaqueTy "datetime") v = false := by intro v; cases v <;> rfl
 
 /-- unknown namespace / unknown type / non-message attribute / missing key -/
 example : deserialize nss registry
